@@ -60,6 +60,8 @@ def GEnv.find (g : GEnv) (n : List Char) : Option GEntry := List.find? (fun e =>
 /-- Resolve a type expression; `locals` shadow global names (a variable is not a type). -/
 def resolveType (g : GEnv) (locals : List VarInfo) (creator : List Char) : TypeExpr → Option Ty
   | .named id =>
+    -- `int` always denotes the primitive type (it cannot be hidden by a variable called `int`)
+    if id.value == "int".toList then some .int else
     if locals.any (fun v => v.name == id.value) then none else
     match g.find id.value with
     | some (.type _ t) => some t
